@@ -14,6 +14,8 @@ ANY order and batching of events, what then could only be said under FIFO delive
 import EkwVerif.Lemmas.CtrlFinal
 import EkwVerif.Lemmas.SchedIdle
 import EkwVerif.Lemmas.SchedTermC
+import EkwVerif.Lemmas.CtrlPresched
+import EkwVerif.Lemmas.CtrlWFCheck
 
 namespace EkwVerif.Ctrl
 
@@ -139,6 +141,19 @@ theorem c01_run_returns_outputs (f : Sem) (j : Job) (cl : Cluster) (cm : Comps) 
       · rw [he]; exact ih
   obtain ⟨n, hn⟩ := sT_maximal_finishes f j cl cm wf wfc feas σ h0 hmax
   exact ⟨n, c01_outputs_sequential f j cl wf (σ n).sys (sL_reachableX_base f j cl cm _ (hreach n)) hn⟩
+
+/-- **Every requested dataset is delivered — no free hypothesis** (re-audit C01 #1: `cm` was a free parameter constrained only
+by `WFC`, and `WF`/`WFC` were never checked on a replayed input). `c01_delivers` for the component map that C16's `precompute`
+yields for the `JobInstance` the job stands for (`preComps j key`, any positional/keyword keying of the edges; `WFC` is PROVED for
+it: `preComps_wfc`), with `WF` and `Feasible` replaced by the Bool checks that the drivers evaluate on every replayed input
+(`wfCheck`, `feasCheck`; sound by `wfCheck_sound`, `feasCheck_sound`). -/
+theorem c01_delivers_checked (f : Sem) (j : Job) (cl : Cluster) (key : Task → Ds → Presched.Key)
+    (hwf : wfCheck j cl = true) (hfeas : feasCheck j cl = true) (x : SysX) (hr : ReachableX f j cl (preComps j key) x) :
+    Inev f j cl (preComps j key) (fun y => y.sys.phase = .finished ∧
+      (∀ ds, ds ∈ j.ext → ∃ v, y.sys.ctl.outputs ds = some v ∧ den f j ds = some v) ∧
+      (∀ t, t < j.tasks.length → y.sys.env.ran t = true ∧ y.sys.env.dispatchedE t = 1 ∧ y.sys.ctl.doneC t = true)) x :=
+  c01_delivers f j cl (preComps j key) (wfCheck_sound j cl hwf) (preComps_wfc j cl (wfCheck_sound j cl hwf) key)
+    (feasCheck_sound j cl hfeas) x hr
 
 /-! non-vacuity (audit C01 #5): a reachable FINISHED state with a non-empty set of requested outputs — one task whose
 output is requested, on one worker: dispatched, run, announced, fetched, payload delivered, loop exit with the value of
